@@ -191,4 +191,45 @@ PROPS = {
         assumptions=["rename of a directory is atomic and moves the subtree; a kill leaves a prefix of the last write",
                      "zarr writes a chunk as temp file + replace; consolidate_metadata writes .zmetadata last"],
     ),
+    "C01": dict(
+        units=[],
+        props_files=["Props/C01.v"],
+        driver="c01",
+        rule="abstract VCFs from the generator (all Type x Number, missingness patterns, boundary values, +-inf, denormals, mixed "
+        "ploidy/phasing, filters, duplicate positions, unused contigs, contig blocks out of header order) x {vcf.gz+tbi, vcf.gz+csi, "
+        "bcf+csi} x chunk sizes through convert; every array vs Model.Spec.spec_encode of the abstract file; variants compared with "
+        "each other; contigs / filters / samples / header carried over. distinct = distinct (file, container, index); non-trivial = "
+        "at least one INFO or FORMAT field",
+        status="full on the model: row encoders are lossless (vec_roundtrip) and the pipeline writes enc(values[i]) at row i for any "
+        "partitioning and order (pipeline_rows); VCF text -> cyvcf2 values (htslib) sits between the abstract VCF and the first modelled "
+        "function and is covered by the differential run only",
+        assumptions=["htslib/cyvcf2 parse the generated text into the typed values the generator intended (detected, not proved)",
+                     "phasing of calls with fewer than two alleles is not determined by the input (F8: cyvcf2 reports an indeterminate bit)"],
+    ),
+    "C03": dict(
+        units=[],
+        props_files=["Props/C03.v"],
+        driver="c03",
+        rule="generated files (small BGZF blocks, so the index offers many partitions) against a 1-partition synchronous reference: "
+        "distributed explode (targets 1..20, shuffled order, column chunk sizes 1e-5..16 MiB) + distributed encode (1..7 partitions, "
+        "shuffled); one-shot convert with worker_processes 0/1/2/4; other variants/samples chunk sizes; max_variant_chunks incl. "
+        "caps >= the chunk count; repeat run compared byte for byte; the records cut into 2-3 files in several orders. "
+        "distinct = distinct (file, configuration); every case is non-trivial",
+        status="partial: values/shapes/dtypes/attributes are covered by the theorems on the pipeline model; byte identity of repeated "
+        "runs depends on Blosc determinism and on cyvcf2 (known finding F8) and is a self-differential only",
+        assumptions=["Blosc compression is deterministic", "cyvcf2 haploid phasing bit (F8) is a don't-care for values, a known finding for bytes"],
+    ),
+    "C02": dict(
+        units=[],
+        props_files=["Props/C02.v"],
+        driver="c02",
+        rule="generated inputs biased toward Number=R/A/G fields absent or short on the widest records x variants/samples chunk "
+        "sizes {1,2,3,n,n+3,default} x dimension separators {default,'/','.'} x {one-shot, distributed with 1..7 shuffled "
+        "partitions}; every store: shared dimension sizes, xarray open, rows/columns, sentinel-capable dtypes, complete chunk "
+        "grid without strays, consolidated metadata = metadata on disk; generated schema vs Model.Schema.generate. "
+        "distinct = distinct (file, configuration); every case is non-trivial",
+        status="full for the schema (dims_coherent, rows_cols, sentinels); the chunk grid and the consolidated metadata are zarr's "
+        "serialisation and are checked on the real stores, not modelled",
+        assumptions=["zarr writes one file per chunk key and consolidates the metadata it finds"],
+    ),
 }
